@@ -2,6 +2,7 @@ package main
 
 import (
 	"crypto/sha256"
+	"fmt"
 	"go/types"
 	"strings"
 )
@@ -130,4 +131,13 @@ func init() {
 		return Tuple{&StrV{T: r}, IfaceV{}}
 	}
 	_ = strings.Contains
+	textString := func(it *Interp, a []Val) Val {
+		var leaves []*Term
+		if it.flatten(a[0], &leaves) && len(leaves) > 0 {
+			return &StrV{T: App(fmt.Sprintf("prototext!%d", len(leaves)), SStr, leaves...)}
+		}
+		return &StrV{T: Var(it.p.freshName("prototext"), SStr)}
+	}
+	models["github.com/gogo/protobuf/proto.CompactTextString"] = textString
+	models["github.com/gogo/protobuf/proto.MarshalTextString"] = textString
 }
